@@ -183,12 +183,14 @@ SPECS["C15"] = dict(
          "oracle: RR i-th call -> loop i mod N, LC returned loop has minimal count at call time, SAH same address string -> same loop, always a registered loop; "
          "non-trivial = N >= 2 and >= 2N accepts; distinct = distinct (policy, N, history)",
     assumptions=["bare eventloop values with an initialised registry stand in for loops in the policy half"],
-    overlay=ROOT_OVERLAY,
+    overlay=ROOT_OVERLAY + ["verifx/c15"] + FX_OVERLAY_EARLY,
     jobs=[
         dict(name="c15", pkg=".", tests=[
             dict(id="policy", run="^TestC15Policy$", quick=dict(shards=4, checks=1500, timeout=300), thorough=dict(shards=8, checks=25000, timeout=1500)),
         ]),
-    ],
+    ] + [dict(name="c15s-" + tagname(tg), pkg="./verifx/c15", tags=tg, tests=[
+            dict(id="sessions", run="^TestC15Sessions$", quick=dict(shards=3, checks=60, timeout=600, shrinktime=30), thorough=dict(shards=4, checks=2500, timeout=3000, shrinktime=300)),
+        ]) for tg in ["", "poll_opt,gc_opt"]],
 )
 
 SPECS["C17"] = dict(
